@@ -96,12 +96,49 @@ def run(index, rep, tier):
                               "%s adds a state to `%s` and, with auto-compilation on, can return without running %s, which is what defines the member states derived from that list (the missing-data state = all fundamental states): the alphabet's `?` keeps the old state set, so the Fitch pass treats a missing cell as excluding the new state and counts a change that the minimum does not need" % (m.qualname, w.attr, c))
         rep.floor("R16.8", "growth sites of lists that member states are derived from", 1, ngrow)
 
+    rep.rule("R16.9", "every built-in alphabet tells the base class which symbol is the gap and which means 'no data': each direct StateAlphabet subclass passes gap_symbol and no_data_symbol to StateAlphabet.__init__ like its siblings, and neither symbol is hidden among the fundamental states (the scorer's gaps_as_missing acts only on the state flagged as gap)")
+    with rep.section("R16.9"):
+        CSM = "dendropy.datamodel.charstatemodel"
+        nalpha = 0
+        for k in sorted(index.classes.values(), key=lambda c: c.qualname):
+            if k.module.name != CSM or k.name == "StateAlphabet" or not any(norm(b).split(".")[-1] == "StateAlphabet" for b in k.node.bases):
+                continue
+            init = k.methods.get("__init__")
+            if init is None:
+                continue
+            sup = [c for c in calls_in(init.node) if norm(c.func) == "StateAlphabet.__init__" or (isinstance(c.func, ast.Attribute) and c.func.attr == "__init__" and norm(c.func.value).startswith("super("))]
+            if len(sup) != 1:
+                raise AnalysisError("R16.9: %s does not call StateAlphabet.__init__ exactly once" % k.qualname)
+            nalpha += 1
+            kws = {kw.arg: kw.value for kw in sup[0].keywords if kw.arg}
+            for need in ("gap_symbol", "no_data_symbol"):
+                rep.check(need in kws, "R16.9", init.qualname, "%s not passed to StateAlphabet.__init__" % need, fn_where(init, sup[0]), "%s passes %s to the base class" % (k.name, need),
+                          "%s builds its alphabet without passing `%s` to StateAlphabet.__init__ (all its sibling alphabets do): no state is flagged as the %s, so parsimony_score(gaps_as_missing=True) silently counts `-` as one more residue for this data type only, and scores of gapped alignments are above the minimum" % (init.qualname, need, "gap" if need.startswith("gap") else "missing-data state"))
+            fs = kws.get("fundamental_states")
+            lits = set()
+            if fs is not None:
+                src_exprs = [fs]
+                if isinstance(fs, ast.Name):
+                    src_exprs = [a.value for a in walk_no_nested(init.node) if isinstance(a, ast.Assign) and norm(a.targets[0]) == fs.id]
+                for e in src_exprs:
+                    for x in ast.walk(e):
+                        if isinstance(x, ast.Constant) and isinstance(x.value, str):
+                            lits.add(x.value)
+                        elif isinstance(x, (ast.Name, ast.Attribute)):
+                            v = k.class_attrs.get(norm(x).split(".")[-1])
+                            if v is not None:
+                                lits |= {y.value for y in ast.walk(v) if isinstance(y, ast.Constant) and isinstance(y.value, str)}
+            hidden = sorted({ch for l in lits for ch in l if ch in "-?"})
+            rep.check(not hidden, "R16.9", init.qualname, "gap / missing symbol among the fundamental states: %s" % hidden, fn_where(init, sup[0]), "%s: fundamental states %s contain neither `-` nor `?`" % (k.name, sorted(lits)),
+                      "%s lists %s among its fundamental states: the symbol is then an ordinary residue, not the gap / missing-data state, and gaps_as_missing has nothing to act on" % (init.qualname, hidden))
+        rep.floor("R16.9", "built-in alphabets", 5, nalpha)
     rep.rule("R16.7", "the state sets are read off the matrix on every call: DiscreteCharacterMatrix.taxon_state_sets_map stores nothing on the matrix (no memo that an in-place cell edit would leave stale)")
     with rep.section("R16.7"):
-        tsm = index.function("dendropy.datamodel.charmatrixmodel.DiscreteCharacterMatrix.taxon_state_sets_map")
-        ws = [w for w in writes_in(tsm.node) if w.base is not None and norm(w.base) in ("self", "self.__dict__")]
-        ws += [c for c in calls_in(tsm.node) if call_name(c) == "setattr" and c.args and norm(c.args[0]) == "self"]
-        rep.check(not ws, "R16.7", tsm.qualname, "taxon_state_sets_map stores on the matrix", fn_where(tsm, ws[0].stmt if ws and hasattr(ws[0], "stmt") else None), "taxon_state_sets_map writes nothing to self",
+        index.function("dendropy.datamodel.charmatrixmodel.DiscreteCharacterMatrix.taxon_state_sets_map")
+        for tsm in sorted((f for f in index.functions.values() if f.name == "taxon_state_sets_map" and f.cls is not None), key=lambda f: f.qualname):
+          ws = [w for w in writes_in(tsm.node) if w.base is not None and (norm(w.base) in ("self", "self.__dict__") or norm(w.base).startswith("self."))]
+          ws += [c for c in calls_in(tsm.node) if call_name(c) == "setattr" and c.args and norm(c.args[0]) == "self"]
+          rep.check(not ws, "R16.7", tsm.qualname, "taxon_state_sets_map stores on the matrix", fn_where(tsm, ws[0].stmt if ws and hasattr(ws[0], "stmt") else None), "taxon_state_sets_map writes nothing to self",
                   "DiscreteCharacterMatrix.taxon_state_sets_map keeps something on the matrix (`%s`): a memo of the state-set map cannot see cells edited in place, so scoring the same matrix object again after changing a cell returns the old score - the score is no longer a function of the tree and matrix passed in" % (norm_stmt(ws[0].stmt)[:60] if ws and hasattr(ws[0], "stmt") else "setattr"))
     fd = index.function(PM + ".fitch_down_pass")
     ps = index.function(PM + ".parsimony_score")
